@@ -21,9 +21,13 @@ use std::task::{RawWaker, RawWakerVTable};
 pub(crate) static WAKES: [AtomicU32; 8] = [AtomicU32::new(0), AtomicU32::new(0), AtomicU32::new(0), AtomicU32::new(0), AtomicU32::new(0), AtomicU32::new(0), AtomicU32::new(0), AtomicU32::new(0)];
 pub(crate) static KEEP_AT_LAST_WAKE: [AtomicBool; 8] = [AtomicBool::new(true), AtomicBool::new(true), AtomicBool::new(true), AtomicBool::new(true), AtomicBool::new(true), AtomicBool::new(true), AtomicBool::new(true), AtomicBool::new(true)];
 pub(crate) static KEEP_PROBE: std::sync::atomic::AtomicPtr<bool> = std::sync::atomic::AtomicPtr::new(std::ptr::null_mut());
+/// C04 mechanism probe: what a consumer would find if it polled at the very instant of a wake-up (set by the channel-level kit)
+pub(crate) static mut PENDING_PROBE: Option<fn() -> u32> = None;
+pub(crate) static PENDING_AT_LAST_WAKE: AtomicU32 = AtomicU32::new(u32::MAX);
 fn w_clone(p: *const ()) -> RawWaker { RawWaker::new(p, &VTABLE) }
 fn w_wake(p: *const ()) {
     WAKES[p as usize].fetch_add(1, Relaxed);
+    if let Some(f) = unsafe { PENDING_PROBE } { PENDING_AT_LAST_WAKE.store(f(), Relaxed); }
     let probe = KEEP_PROBE.load(Relaxed);
     if !probe.is_null() && (p as usize) < 4 { KEEP_AT_LAST_WAKE[p as usize].store(unsafe { *probe.add(p as usize) }, Relaxed); }
 }
